@@ -143,9 +143,191 @@ def stages_oracle(ctx):
     return s
 
 
+def _resub_calls():
+    """the `re.sub(pattern, replacement, source)` calls of fixes.fix_too_many_blank_lines, read off its source, in order"""
+    import inspect
+    import re
+    import textwrap
+
+    from pyrefact import fixes
+
+    tree = ast.parse(textwrap.dedent(inspect.getsource(fixes.fix_too_many_blank_lines)))
+    calls = []
+    for node in ast.walk(tree):
+        if isinstance(node, ast.Call) and isinstance(node.func, ast.Attribute) and node.func.attr == "sub" and len(node.args) == 3:
+            try:
+                pat = eval(compile(ast.Expression(node.args[0]), "<pat>", "eval"), {"__builtins__": {}})
+                rep = eval(compile(ast.Expression(node.args[1]), "<rep>", "eval"), {"__builtins__": {}})
+            except Exception:
+                continue
+            if isinstance(pat, str) and isinstance(rep, str):
+                calls.append((node.lineno, node.col_offset, pat, rep))
+    return [(pat, rep, (lambda t, pat=pat, rep=rep: re.sub(pat, rep, t))) for (_l, _c, pat, rep) in sorted(calls)]
+
+
+TQ = "'" * 3
+
+
+def blank_texts(ctx):
+    import itertools
+
+    r = ctx.rng("blanklines")
+    texts = ["", "\n", "x", "x\n\n\n\n\ny\n", "def f():\n    a = 1\n\n  \n\n\n\n    b = 2\n", "import os\n\n\n\n\n\nx = 1\n\n\n", "a\n \n \n \n \n", "a\r\n\r\n\r\n\r\n\r\nb",
+             "s = \"\"\"a\n\n\n\n\nb\"\"\"\n", "x\n\x0c\n\n\n\ny", "x\n\xa0\n\u2028\n\n\n  y", "if a:\n\n\n\n    b\n\n\n\nc\n", "x\n\n\n\n", "\n\n\n\nx", "x\n\n\n \ny", "x\n\n \n\ny", "x\n\n\n\n  ",
+             "x" + "\n" * 14 + "y\n", "x\n" + " \n" * 12 + "  y\n"]
+    for n in range(0, ctx.n(7, 9)):  # exhaustive small scope over {newline, blank, letter}
+        for t in itertools.product("\n x", repeat=n):
+            texts.append("".join(t))
+    pool = ["\n", "\n", "\n", " ", "  ", "x", "y = 1", "\t", "\r", "\x0c", "\xa0", "    z", "\x1c", "\u2028", "\x85", "#c", TQ]
+    for _ in range(ctx.n(6000, 120000)):
+        texts.append("".join(r.choice(pool) for _ in range(r.randint(1, 18))))
+    return texts
+
+
+def blanklines_suite(ctx):
+    from pyrefact import fixes
+
+    s = Suite("blanklines")
+    texts = blank_texts(ctx)
+    answers = ctx.driver.ask([{"suite": "blanklines", "src": t} for t in texts])
+    calls = _resub_calls()
+    models = ["sub1", "sub2", "sub3"]
+    # which model does each real substitution follow?  (a reordering of the three calls is covered by the theorems: each
+    # substitution keeps the non-blank lines behind every prefix)
+    assign = []
+    for (pat, rep, fn) in calls:
+        reals = [fn(t) for t in texts]
+        agree = [m for m in models if all(a.get(m) == rl for a, rl in zip(answers, reals))]
+        if agree:
+            assign.append(agree[0])
+            s.count("call follows " + agree[0])
+        else:
+            assign.append(None)
+            best = min(models, key=lambda m: sum(a.get(m) != rl for a, rl in zip(answers, reals)))
+            shown = 0
+            for t, a, rl in zip(texts, answers, reals):
+                if a.get(best) != rl and shown < 5:
+                    shown += 1
+                    s.disagreements.append({"src": t, "pattern": pat, "replacement": rep, "model": a.get(best), "real": rl,
+                                            "what": f"re.sub({pat!r}, {rep!r}, .) of fix_too_many_blank_lines follows none of the three modelled substitutions (closest: {best})"})
+    if len(calls) != 3:
+        s.disagreements.append({"src": "", "what": f"fix_too_many_blank_lines makes {len(calls)} re.sub calls, the model has 3", "calls": [(c[0], c[1]) for c in calls]})
+    reordered = all(assign) and len(assign) == 3 and assign != models and sorted(assign) == models
+    if reordered:
+        # the code applies the modelled substitutions in another order: compose the models in the code's order
+        s.count("substitutions applied in the order " + ",".join(assign))
+        cur = list(texts)
+        for m in assign:
+            step = ctx.driver.ask([{"suite": "blanklines", "src": t} for t in cur])
+            cur = [a[m] for a in step]
+        modelled = cur
+    else:
+        modelled = [a.get("fix") for a in answers]
+    for t, mo in zip(texts, modelled):
+        s.cases += 1
+        real = fixes.fix_too_many_blank_lines(t)
+        if real != t:
+            s.nt(t)
+        if mo != real:
+            s.disagreements.append({"src": t, "model": mo, "real": real, "what": "fix_too_many_blank_lines differs from the model (the modelled substitutions composed in the code's order)"})
+    s.samples.append({"suite": "blanklines", "src": "def f():\n    a = 1\n\n  \n\n\n\n    b = 2\n", "fix": "def f():\n    a = 1\n\n    b = 2\n"})
+    s.note = ("19 hand-written texts + every text of length <= 6 (thorough: 8) over {newline, blank, letter} + random texts over {newlines, blanks, tabs, CR, FF, NBSP, FS, U+2028, NEL, tokens, quotes}: "
+              "fixes.fix_too_many_blank_lines vs BlankLines.fixBlankLines byte for byte, and each re.sub call read off the function's source vs the substitution model it follows; non-trivial = the text changes")
+    return s
+
+
+def nbl_oracle(ctx):
+    """the theorem's statement observed on the real function: non-blank lines verbatim and in order"""
+    from pyrefact import fixes
+
+    s = Suite("blanklines-lines", kind="oracle")
+    for t in blank_texts(ctx):
+        s.cases += 1
+        real = fixes.fix_too_many_blank_lines(t)
+        before = [l for l in t.split("\n") if l.strip()]
+        after = [l for l in real.split("\n") if l.strip()]
+        if before != after:
+            s.disagreements.append({"src": t, "out": real, "stage": "fix_too_many_blank_lines", "sha": oracles.sha(t), "what": "fix_too_many_blank_lines changed a non-blank line (or their order)"})
+        elif real != t:
+            s.nt(t)
+    s.note = "same texts: the lines with a non-whitespace character (split at newline) of fix_too_many_blank_lines(t) equal those of t - the statement of C11.blanklines_nonblank_lines_verbatim on the real function"
+    return s
+
+
+def minimize_cases(ctx):
+    r = ctx.rng("minimize")
+    pool = ["x = 1\n", "y = 2\n", "\n", "   \n", "\t\n", "    z = 3\n", "# c\n", "  \n", "a\r\n", "b\x0c\n", "\r\n", "q", "s = " + TQ + "\n", TQ + "\n", "\xa0\n", "w\u2028v\n", "\x1c\n"]
+    cases = [("", ""), ("a\n", "a\n"), ("a\n\nb\n", "a\nb\n"), ("a\nb\n", "a\n\nb\n"), ("a\n\n\nb", "a\nb"), ("x=1\n\n", "x = 1\n"), ("a\n  \nb\n", "a\nb\nc\n")]
+    while len(cases) < ctx.n(4000, 60000):
+        old = [r.choice(pool) for _ in range(r.randint(0, 10))]
+        new = list(old)
+        for _ in range(r.randint(0, 5)):
+            k = r.random()
+            if k < 0.4 and new:
+                del new[r.randrange(len(new))]
+            elif k < 0.8:
+                new.insert(r.randint(0, len(new)), r.choice(pool))
+            elif new:
+                i = r.randrange(len(new))
+                new[i] = new[i].replace("1", "11").replace(" ", "  ", 1)
+        cases.append(("".join(old), "".join(new)))
+    return cases
+
+
+def _nonsp(x):
+    return [c for c in x if not c.isspace()]
+
+
+def minimize_suite(ctx):
+    import difflib
+
+    from pyrefact import processing
+
+    s = Suite("minimize")
+    cases = minimize_cases(ctx)
+    reqs = []
+    for old, new in cases:
+        diffs = list(difflib.Differ().compare(old.splitlines(keepends=True), new.splitlines(keepends=True)))
+        reqs.append({"suite": "minimize", "script": [[d[0], d[2:]] for d in diffs]})
+    answers = ctx.driver.ask(reqs)
+    for (old, new), a in zip(cases, answers):
+        s.cases += 1
+        real = processing.minimize_whitespace_line_differences(old, new)[0]
+        if a.get("new") != new:
+            s.disagreements.append({"old": old, "new": new, "model_new": a.get("new"), "what": "the diff script does not rebuild the new text (harness / difflib contract)"})
+        if a.get("text") != real:
+            s.disagreements.append({"old": old, "new": new, "model": a.get("text"), "real": real, "what": "minimize_whitespace_line_differences differs from the model"})
+        if real != new:
+            s.nt([old, new])
+            s.count("restores or drops whitespace-only groups")
+        else:
+            s.count("returns the new text")
+    s.samples.append({"suite": "minimize", "script": [[" ", "a\n"], ["-", "\n"], [" ", "b\n"]], "text": "a\n\nb\n"})
+    s.note = ("7 hand-written + random (old, new) line edits over code lines, blank lines with blanks / tabs / CR / FF / NBSP / FS, unterminated last lines, triple-quote lines: the script of difflib.Differ (as the real function "
+              "computes it) is handed to Minimize.minimize; rebuilt text vs processing.minimize_whitespace_line_differences(old, new)[0] byte for byte; non-trivial = the result differs from the new text")
+    return s
+
+
+def minimize_oracle(ctx):
+    """the theorem's statement observed on the real function"""
+    from pyrefact import processing
+
+    s = Suite("minimize-chars", kind="oracle")
+    for old, new in minimize_cases(ctx):
+        s.cases += 1
+        real = processing.minimize_whitespace_line_differences(old, new)[0]
+        if _nonsp(real) != _nonsp(new):
+            s.disagreements.append({"src": old, "new": new, "out": real, "stage": "minimize_whitespace_line_differences", "sha": oracles.sha(old + "\0" + new),
+                                    "what": "minimize_whitespace_line_differences changed non-whitespace characters of the formatted text"})
+        elif real != new:
+            s.nt([old, new])
+    s.note = "same (old, new) pairs: the non-whitespace characters of the rebuilt text equal those of the new text - the statement of C11.minimize_only_whitespace on the real function"
+    return s
+
+
 def suites(ctx):
     common.import_pyrefact()
-    return [layout_suite(ctx), stages_oracle(ctx)]
+    return [layout_suite(ctx), blanklines_suite(ctx), nbl_oracle(ctx), minimize_suite(ctx), minimize_oracle(ctx), stages_oracle(ctx)]
 
 
 def match_known(d, known):
